@@ -806,7 +806,7 @@ def render_coq(types, order, vec_limit):
         r = types[n]
         if r["kind"] == "enum":
             out.append("Definition T_%s : ty := Enum [%s]%%N.   (* %s: %s *)" % (
-                n, "; ".join(str(d) for _, d in r["variants"]), r["file"], ", ".join("%s=%d" % v for v in r["variants"])))
+                n, "; ".join(str(d) for _, d in r["variants"]), r["file"], ", ".join("%s=%d" % tuple(v) for v in r["variants"])))
         elif n == "ProofOfSpace":
             out.append("Definition T_%s : ty := PoS.   (* %s: hand-written impl, mirrored in Stream/Versioned.v *)" % (n, r["file"]))
         else:
@@ -837,7 +837,7 @@ def render_rust(types, order):
         r = types[n]
         p = r["path"]
         if r["kind"] == "enum":
-            out.append("wire_enum!(%s; %s);" % (p, ", ".join("%s = %d" % v for v in r["variants"])))
+            out.append("wire_enum!(%s; %s);" % (p, ", ".join("%s = %d" % tuple(v) for v in r["variants"])))
         elif r["shape"] == "tuple":
             out.append("wire_tuple_struct!(%s; %s);" % (p, ", ".join(rust_ty(t, paths) for _, t in r["ftypes"])))
         else:
@@ -853,10 +853,60 @@ def render_rust(types, order):
     return "\n".join(out) + "\n"
 
 
+SNAPSHOT = "/verif/driver/wire_types_snapshot.json"   # last good type description (committed; see notes/wire.md)
+RUST_TABLE = "/verif/harness/src/gen/wire_types_gen.rs"
+COQ_TABLE = "/verif/coq/Gen/StreamTypes.v"
+
+
+def snapshot_dump(types, order, vec_limit):
+    import json
+    return json.dumps({"types": types, "order": order, "vec_limit": vec_limit}, indent=0, sort_keys=True) + "\n"
+
+
+def snapshot_load():
+    """(types, order, vec_limit) of the committed snapshot; descriptors come back as lists instead of tuples,
+    which every consumer (index / iteration only) accepts"""
+    import json
+    if not os.path.exists(SNAPSHOT):
+        raise TieBroken("type snapshot missing: " + SNAPSHOT)
+    d = json.load(open(SNAPSHOT))
+    return d["types"], d["order"], d["vec_limit"]
+
+
+def build_or_snapshot(repo):
+    """(types, order, vec_limit, broken_message_or_None): the current source if it translates, otherwise the
+    last good snapshot so that the checks can still SEARCH for a failing input with the last good description"""
+    try:
+        t, o, v = build(repo)
+        return t, o, v, None
+    except TieBroken as e:
+        t, o, v = snapshot_load()
+        return t, o, v, str(e)
+
+
+def _write_if_missing(path, content):
+    if not os.path.exists(path):
+        os.makedirs(os.path.dirname(path), exist_ok=True)
+        with open(path, "w") as f:
+            f.write(content)
+
+
 def generate(repo):
-    types, order, vec_limit = build(repo)
+    try:
+        types, order, vec_limit = build(repo)
+    except TieBroken:
+        # the tie is broken (reported by the caller).  Keep the last good generated tables in place; if they
+        # do not exist at all (fresh checkout) re-create them from the committed snapshot so that the model
+        # and the harness of the last good description can still be built and used to search for an input
+        try:
+            t, o, v = snapshot_load()
+            _write_if_missing(COQ_TABLE, render_coq(t, o, v))
+            _write_if_missing(RUST_TABLE, render_rust(t, o))
+        except Exception:
+            pass
+        raise
     rust = render_rust(types, order)
-    dst = "/verif/harness/src/gen/wire_types_gen.rs"
+    dst = RUST_TABLE
     try:
         os.makedirs(os.path.dirname(dst), exist_ok=True)
         old = open(dst).read() if os.path.exists(dst) else None
@@ -870,6 +920,11 @@ def generate(repo):
 
 if __name__ == "__main__":
     import sys
+    if len(sys.argv) > 1 and sys.argv[1] == "write-snapshot":
+        t, o, v = build("/repo")
+        open(SNAPSHOT, "w").write(snapshot_dump(t, o, v))
+        print("snapshot written:", len(o), "types")
+        sys.exit(0)
     t, o, _ = build(sys.argv[1] if len(sys.argv) > 1 else "/repo")
     for n in o:
         r = t[n]
